@@ -38,7 +38,7 @@ const maxDur = int64(math.MaxInt64)
 func (prop) Gen(r *core.Rand, tier string) []core.Case {
 	n := 600
 	if tier == "thorough" {
-		n = 30000
+		n = 5000
 	}
 	cs := []core.Case{
 		{ID: "fix-boundary", NT: true, Ops: []string{"add aa 1000000000", "tick 999999999", "exists aa", "tick 1", "exists aa", "peers", "tick 1", "peers", "exists aa", "peers"}},
